@@ -117,7 +117,10 @@ WOs == [nodes |-> <<
    \o [c \in 1 .. 41 |-> ONode(7 + c, "cap" \o ToString(c - 1), 1, "", 0, 0, 0, FALSE, c - 1, CapFlagSets[1])]
    \o [j \in 1 .. 4 * Cardinality(CapSet) |->
          LET c == SortedCaps[((j - 1) \div 4) + 1]  f == ((j - 1) % 4) + 2
-         IN ONode(48 + j, "capf" \o ToString(c) \o "_" \o ToString(f), 1, "", 0, 0, 0, FALSE, c, CapFlagSets[f])] ]
+         IN ONode(48 + j, "capf" \o ToString(c) \o "_" \o ToString(f), 1, "", 0, 0, 0, FALSE, c, CapFlagSets[f])]
+   \* directories carry extended attributes like files do
+   \o << [ONode(49 + 4 * Cardinality(CapSet), "xdir", 0, "", 0, 0, 0, TRUE, -1, NoFl) EXCEPT !.kind = "dir"],
+          [ONode(50 + 4 * Cardinality(CapSet), "pdir", 0, "", 1000, 1000, 0, FALSE, -1, NoFl) EXCEPT !.kind = "dir"] >> ]
 
 Kinds == {"modes", "zipmodes", "paths", "extclass", "content", "osattrs"}
 Init == kind = "" /\ variant = "" /\ phase = "start"
